@@ -183,9 +183,9 @@ pub fn next_table(g: &mut Gen, r: &dyn Runner) -> String {
     } else if x < 785 {
         format!("{} extract_if {}", tgt, g.rng.below(12))
     } else if x < 805 {
-        format!("{} drain {} {}", tgt, g.rng.below(12), if g.rng.chance(1, 5) { 1 } else { 0 })
+        if g.rng.chance(1, 3) { format!("{} drain_fold {}", tgt, g.rng.below(12)) } else { format!("{} drain {} {}", tgt, g.rng.below(12), if g.rng.chance(1, 5) { 1 } else { 0 }) }
     } else if x < 815 {
-        format!("{} into_iter {}", tgt, g.rng.below(12))
+        if g.rng.chance(1, 3) { format!("{} into_iter_fold {}", tgt, g.rng.below(12)) } else { format!("{} into_iter {}", tgt, g.rng.below(12)) }
     } else if x < 830 {
         format!("{} clear", tgt)
     } else if x < 860 {
@@ -300,9 +300,9 @@ fn set_single(g: &mut Gen, r: &dyn Runner) -> String {
     } else if x < 705 {
         format!("{} extract_if {}", tgt, g.rng.below(12))
     } else if x < 717 {
-        format!("{} drain {} {}", tgt, g.rng.below(12), if g.rng.chance(1, 5) { 1 } else { 0 })
+        if g.rng.chance(1, 3) { format!("{} drain_fold {}", tgt, g.rng.below(12)) } else { format!("{} drain {} {}", tgt, g.rng.below(12), if g.rng.chance(1, 5) { 1 } else { 0 }) }
     } else if x < 725 {
-        format!("{} into_iter {}", tgt, g.rng.below(12))
+        if g.rng.chance(1, 3) { format!("{} into_iter_fold {}", tgt, g.rng.below(12)) } else { format!("{} into_iter {}", tgt, g.rng.below(12)) }
     } else if x < 755 {
         let len = r.dump(tgt).items as u64;
         let p = match g.rng.below(4) {
@@ -321,11 +321,14 @@ fn set_single(g: &mut Gen, r: &dyn Runner) -> String {
     } else if x < 800 {
         format!("{} nop", tgt)
     } else if x < 860 {
-        format!("{} {}", tgt, g.rng.pick(SET_LAZY))
+        let sp = if g.rng.chance(1, 5) { "self_" } else { "" };
+        format!("{} {}{}", tgt, sp, g.rng.pick(SET_LAZY))
     } else if x < 910 {
-        format!("{} {}", tgt, g.rng.pick(SET_PRED))
+        let sp = if g.rng.chance(1, 4) { "self_" } else { "" };
+        format!("{} {}{}", tgt, sp, g.rng.pick(SET_PRED))
     } else if x < 955 {
-        format!("{} {}", tgt, g.rng.pick(SET_OPFORM))
+        let sp = if g.rng.chance(1, 5) { "self_" } else { "" };
+        format!("{} {}{}", tgt, sp, g.rng.pick(SET_OPFORM))
     } else {
         format!("{} {}", tgt, g.rng.pick(SET_ASSIGN))
     }
@@ -416,6 +419,12 @@ fn set_binary_script(seed: u64) -> Vec<String> {
         for op in SET_LAZY.iter().chain(SET_PRED).chain(SET_OPFORM) {
             v.push(format!("{} {}", tgt, op));
         }
+        // the same object on both sides
+        for op in SET_PRED {
+            v.push(format!("{} self_{}", tgt, op));
+        }
+        v.push(format!("{} self_{}", tgt, rng.pick(SET_LAZY)));
+        v.push(format!("{} self_{}", tgt, rng.pick(SET_OPFORM)));
     }
     for i in (1..v.len()).rev() {
         let j = rng.below(i as u64 + 1) as usize;
